@@ -50,6 +50,17 @@ Definition lossless_swap (input ratio scale_in scale_out : Z) : Z * Z :=
     else input - dec_truncate_int (dec_quo_trunc (dec_mul_trunc (outputDec - outputInt) rev) ratio) in
   (input', dec_truncate_int outputInt).
 
+(** [LegacyDec] results of more than 315 bits panic ("Int overflow", cosmossdk.io/math dec.go: every
+    [MulTruncate] / [QuoTruncate] checks its chopped result against maxDecBitLen = 256 + 59).  In
+    [LossLessSwap] only the two products of the output chain can get there (the give-back terms are
+    below 10^54, the minted integer is below 2^315 / 10^18 < 2^256 once the output passed). *)
+Definition dec_ok (x : Z) : bool := Z.abs x <? 2 ^ 315.
+
+Definition lossless_overflows (input ratio scale_in scale_out : Z) : bool :=
+  let '(mult, _) := scale_mults scale_in scale_out in
+  let a := dec_mul_trunc (dec_of_int input) mult in
+  negb (dec_ok a) || negb (dec_ok (dec_mul_trunc a ratio)).
+
 (** what the burned amount [b] of the input token is worth in the output token, compared with a
     minted amount [m], in integers: [m / 10^scale_out <= (b / 10^scale_in) * (ratio / 10^18)] *)
 Definition mint_le_worth (b m ratio scale_in scale_out : Z) : Prop :=
